@@ -19,7 +19,7 @@ func init() { register(c09{}) }
 
 func (c09) ID() string { return "C09" }
 func (c09) Cases(t fw.Tier) int {
-	return tierN(t, 5000, 200000)
+	return tierN(t, 8000, 250000)
 }
 func (c09) Rule() string {
 	return "for every (type T, value v) as in C04 (without standard-library marshaler types) the valid encoding d0 = json.Marshal(v) is mutated AS TEXT at every position the harness can type by walking reflect.Type in parallel with the document: " +
